@@ -34,6 +34,8 @@
                    number of statements: after the last one); at = b (KBefore) | l (KLocked: lock file written) |
                    w<k> (the first k outputs written completely, with the contents of a successful run) |
                    g<k>:<c> (the first k outputs half written: content c + o) | j<n> (command finished, n log entries written)
+        p<t>+<t>..@<j>:<ev>/<ev>..   one invocation with -j <j> (0 = no limit) under a SCHEDULE (HistParDefs.par_run): ev = s<e>
+                   (the command of statement e is started) | f<e> (it finishes), in the order they happened
         i<t>+<t>..@<pos>:<k>:<c>   an invocation INTERRUPTED while statement pos runs, after k output writes (content c + o);
                    Builder::Cleanup removes what was modified (HistCrashDefs.buildI)
 
@@ -56,6 +58,10 @@
       | F ok=<0|1> failed=<0|1> fe=<e> ts=<0|1> run=<e>+<e>.. nodes=...   failing build: ok = accepted by the scan,
              failed = exit flag "subcommand failed", fe = the statement that failed ("-" = none),
              run = the commands STARTED, oldest first (the failing one is the last)
+      | P res=<done|refused|invalid|incomplete|fuel> ok=<0|1> acc=<n> ts= run=.. bfok= bf=.. conf=<0|1> nodes=..
+             a build under a schedule: res = HistParDefs.presult (done = a valid complete execution; the state goes on from
+             it), acc = number of events accepted (par_accepted: the index of the first refused event), run = the commands
+             in the order they FINISHED; bfok / bf = HistFaithful.build_f from the same state, conf = same contents as it
       | K ok=<0|1> hit=<0|1> ts= run=.. nodes=..   killed invocation (HistCrashDefs.buildK_full): hit = the kill fell into a
              statement that was started (otherwise between two statements / after the last); run = commands started
       | I ok=<0|1> hit=<0|1> exit=<130|0|1> ts= run=.. nodes=..   interrupted invocation (HistCrashDefs.buildI_full)
@@ -117,6 +123,7 @@ type xstep =
   | FB of nat list * (int * char * int) list     (* targets, (statement, kind, content base) *)
   | KB of nat list * int * char * int * int      (* killed: targets, position, point b|l|w|g|j, count, content base *)
   | IB of nat list * int * int * int             (* interrupted: targets, position, writes, content base *)
+  | PB of nat list * int * pevent list           (* a build under a schedule: targets, job limit (0 = none), events *)
 
 let parse_step (t : string) : xstep =
   let two s = match String.split_on_char ':' s with
@@ -145,6 +152,17 @@ let parse_step (t : string) : xstep =
           let base = match more with [c] -> int_of_string c | _ -> 0 in
           KB (nids '+' ts, int_of_string pos, a.[0], cnt, base)
         | _ -> failwith ("bad crash point " ^ cp))
+     | _ -> failwith ("bad step " ^ t))
+  | 'p' ->
+    (match String.split_on_char '@' (rest t) with
+     | [ts; sc] ->
+       (match String.split_on_char ':' sc with
+        | [j; evs] ->
+          PB (nids '+' ts, int_of_string j,
+              List.map (fun x -> let e = nat_of_int (int_of_string (rest x)) in
+                         match x.[0] with 's' -> Start e | 'f' -> Finish e | _ -> failwith ("bad event " ^ x))
+                (items '/' evs))
+        | _ -> failwith ("bad schedule " ^ sc))
      | _ -> failwith ("bad step " ^ t))
   | 'i' ->
     (match String.split_on_char '@' (rest t) with
@@ -280,6 +298,29 @@ let hist_line (direct : bool) (l : string) : string =
                                     (es (trace_delta !st st')) (show_nodes st'));
            st := st'
          | None -> Buffer.add_string buf (Printf.sprintf " | K ok=0 hit=0 ts=%s run=- nodes=%s" (b ts) (show_nodes !st)))
+      | PB (t, j, sched) ->
+        (* one invocation under the schedule the engine's -j N run took (HistParDefs.par_run); next to it the sequential
+           faithful loop from the same state: same commands, same contents (confluence).  The history goes on from the
+           PARALLEL result. *)
+        let ts = taint_safe g !st in
+        let lim = if j <= 0 then None else Some (nat_of_int j) in
+        let acc = match scan (graph_of g !st) (world_of !st) t with
+          | ScanOk (s0, p0) -> int_of_nat (par_accepted cmdf g lim sched (init_pcfg !st s0 p0))
+          | _ -> 0 in
+        let (bfok, bfrun, bfst) = match build_f cmdf g !st t with
+          | Some st' -> (true, trace_delta !st st', Some st') | None -> (false, [], None) in
+        let line res ok st' =
+          let conf = match bfst with
+            | Some sb -> List.for_all (fun n -> opt_content_eqb (content_of st' n) (content_of sb n)) nodes
+            | None -> not ok in
+          Buffer.add_string buf (Printf.sprintf " | P res=%s ok=%s acc=%d ts=%s run=%s bfok=%s bf=%s conf=%s nodes=%s" res (b ok) acc (b ts)
+                                   (es (trace_delta !st st')) (b bfok) (es bfrun) (b conf) (show_nodes st')) in
+        (match par_run cmdf g lim !st t sched with
+         | PDone c -> line "done" true c.p_st; st := c.p_st
+         | PRefused -> line "refused" false !st
+         | PInvalid -> line "invalid" false !st
+         | PIncomplete _ -> line "incomplete" false !st
+         | POutOfFuel -> line "fuel" false !st)
       | IB (t, pos, k, base) ->
         let ts = taint_safe g !st in
         let ip = { ip_pos = nat_of_int pos; ip_k = nat_of_int k; ip_f = (fun o -> n_of_int (base + int_of_nat o)) } in
